@@ -72,3 +72,44 @@ def reductions(prog, fam):
             if t.callee.trait == "std::iter::Iterator" and t.callee.method in ("min", "max", "min_by_key", "max_by_key", "min_by", "max_by"):
                 out.append((fb, bi, t))
     return out
+
+
+ARENA = "ontology::termarena::Arena"
+
+
+def arena_placeholder_skips(prog, name, _depth=0):
+    """how many leading slots of `Arena.terms` the accessor `Arena::<name>` leaves out: RangeFrom starts + skip(n) constants,
+    plus those of another Arena accessor it is built on.  0 = iterates `terms` whole; None = shape not recognised."""
+    b = prog.body("%s::%s" % (ARENA, name))
+    if b is None or _depth > 3:
+        return None
+    total = 0
+    seen_any = False
+    for fb in prog.family(b):
+        for _, s in fb.stmts():
+            if s.k == "assign" and s.rv["k"] == "agg" and s.rv.get("adt", "").endswith("RangeFrom"):
+                v = s.rv["ops"][0].int_value()
+                if v is None:
+                    return None
+                total += v
+                seen_any = True
+            elif s.k == "assign" and s.rv["k"] == "agg" and re.search(r"::Range(Inclusive|To|ToInclusive)?$", s.rv.get("adt", "")):
+                return None
+            elif s.k == "assign" and s.rv["k"] == "ref" and any(e != "*" and e[0] == "f" and e[1] == "terms" for e in s.rv["place"].fields()):
+                seen_any = True
+        for _, t in fb.calls():
+            c = t.callee
+            if c.method == "skip" and (c.trait == "std::iter::Iterator"):
+                v = t.args[1].int_value() if len(t.args) > 1 and t.args[1].kind == "const" else None
+                if v is None:
+                    return None
+                total += v
+            elif c.method in ("take", "step_by", "skip_while", "take_while", "nth", "split_first", "split_at", "split_last", "filter", "filter_map") and (c.trait == "std::iter::Iterator" or "slice" in (c.name or "")):
+                return None
+            elif (c.res or "").startswith(ARENA + "::") and c.res != b.id:
+                inner = arena_placeholder_skips(prog, c.res.rsplit("::", 1)[-1], _depth + 1)
+                if inner is None:
+                    return None
+                total += inner
+                seen_any = True
+    return total if seen_any else None
